@@ -477,7 +477,44 @@ def r5_flags(ctx):
     return out
 
 
+def r6_resolve_parent(ctx, rule="C14.R6"):
+    """resolve_parent(path) = (in-root resolution of path_split(path).0, path_split(path).1): the directory half is
+    exclusively the resolver's answer for the directory half of the split (never a lexical shortcut, a copy of
+    the root, or another spelling), and the name half is the split's own second half."""
+    F = ctx.facts
+    T = ctx.tracer
+    out = []
+    RP = "root::RootRef::<'_>::resolve_parent"
+    b = F.body(RP)
+    d = T.return_origins(b, ("0", "0"))
+    n = T.return_origins(b, ("0", "1"))
+    RES = ("root::RootRef::<'_>::resolve",)
+    okd = bool(d) and all(o.kind == "call" and o.term.callee in RES for o in d)
+    if okd:
+        for o in d:
+            a = T.origins_of_arg(o.term, 1)
+            if not (a and all(x.kind == "call" and x.term.callee == "utils::path::path_split" and x.fpath[:2] == ("0", "0") for x in a)):
+                okd = False
+    (out.append(holds(rule, "resolve_parent:dirfd", b.where(), "directory = self.resolve(path_split(path).0)")) if okd else
+     out.append(violated(rule, "resolve_parent:dirfd", b.where(),
+                         "the parent directory handed to the single-entry operations is not exclusively the in-root resolution of the split-off directory part: %r "
+                         "(a lexical shortcut acts on (root, name) where the resolved parent differs: 'link/..', 'file/..', 'missing/..')" % (d,))))
+    okn = bool(n) and all(o.kind == "call" and o.term.callee == "utils::path::path_split" and o.fpath[:2] == ("0", "1") for o in n)
+    if okn and okd:
+        okn = {id(o.term) for o in n} == {id(x.term) for o in d for x in T.origins_of_arg(o.term, 1)}
+    (out.append(holds(rule, "resolve_parent:name", b.where(), "name = path_split(path).1 of the same split")) if okn else
+     out.append(violated(rule, "resolve_parent:name", b.where(), "the final name is not the second half of the same path_split: %r" % (n,))))
+    # the split is applied to the function's own path parameter
+    for t in b.calls("utils::path::path_split"):
+        a = T.origins_of_arg(t, 0)
+        okp = bool(a) and all(o.kind == "param" and o.body is b and o.detail == 2 for o in a)
+        (out.append(holds(rule, "resolve_parent:split-arg", t.where(), "split of the caller's path")) if okp else
+         out.append(violated(rule, "resolve_parent:split-arg", t.where(), "path_split is applied to %r" % (a,))))
+    return out
+
+
 RULES = [
+    ("C14.R6", r6_resolve_parent, 3, False),
     ("C14.R1", r1_one_sink, 20, False),
     ("C14.R2", r2_trailing_slash, 10, False),
     ("C14.R3", r3_type_bits, 7, False),
